@@ -315,7 +315,16 @@ func cmdRun(args []string) int {
 				continue
 			}
 			if strings.HasSuffix(fname, "_Q") && thorough {
-				continue
+				// the thorough tier replaces a quick harness by its _T counterpart when one exists
+				hasT := false
+				for _, other := range fnames {
+					if other == strings.TrimSuffix(fname, "_Q")+"_T" {
+						hasT = true
+					}
+				}
+				if hasT {
+					continue
+				}
 			}
 			if re != nil && !re.MatchString(fname) {
 				continue
